@@ -258,6 +258,14 @@ def run(tier="quick", seed=0):
                              "script": script_header() + f"sys.path.insert(0, '/verif')\nfrom pybound.c17 import spelling\nbad = spelling({u})\nassert not bad, bad\n"})
     for key, desc in probes():
         failures.append({"key": key, "description": desc, "script": ""})
+    # the leaf/node check shared with export (a job's link must not sit inside another job's link path)
+    try:
+        from .c16 import path_checks
+        for key, desc in path_checks():
+            failures.append({"key": key, "description": desc, "script": ""})
+        evals += 1
+    except Exception as e:
+        failures.append({"key": "leafnode:raised", "description": f"the leaf/node check raised {type(e).__name__}: {e}", "script": ""})
     return {"scope": "6 state point universes (homogeneous, nested, heterogeneous, unicode / dots / spaces, single job) x histories of 2-5 steps over {create view, add / remove / re-key jobs, "
                      "view of a job_ids subset}; after every view: one link per selected job resolving to its directory, no dead directories, equals a from-scratch build, second run is a no-op; "
                      "colliding automatic paths must be refused or linked exactly; probes for the repaired defects F20 / F21; "
